@@ -851,6 +851,8 @@ def cases(tier, seed):
             for r in (1, 2, 3):
                 if fam == 'rank1s' and r > 1 or d >= 500 and r == 3 and not big:
                     continue
+                if d == 3000 and (r > 2 or fam in ('int', 'rot') or (r == 2 and fam != 'pos')):
+                    continue
                 for pi, prof in enumerate(NEWPROF):
                     if prof == 'alt2' and d > 500:
                         continue                             # total beyond 2^+-30000
@@ -862,10 +864,12 @@ def cases(tier, seed):
                         base = dict(d=d, r=r, n=2, seed=pi + 10 * r + d, fam=fam, prof=prof, s=sgn * 80)
                         yield 'C16.norm.stab_value', dict(base)
                         yield 'C16.mul_scalar.stab_value', dict(base, prof2=(NEWPROF + PROFILES)[(pi + r + d) % 11], s2=-sgn * 40)
-                        for kmode in (('first', 'last', 'mid', 'second', 'penult') if (big or d <= 10) else (('first', 'last', 'mid', 'second', 'penult')[(pi + r) % 5],)):
+                        for kmode in (('first', 'last', 'mid', 'second', 'penult') if ((big and d < 500) or d <= 10) else (('first', 'last', 'mid', 'second', 'penult')[(pi + r) % 5],)):
                             yield 'C16.orthogonalize.stab_large', dict(base, kmode=kmode)
                         for ri, rel in enumerate(('other', 'perturbed', 'copy', 'huge_vs_tiny', 'tiny_vs_huge')):
                             if not big and (d >= 60 or fam in ('int', 'rot')) and (ri + pi + r) % (5 if d >= 500 else 3):
+                                continue
+                            if big and d >= 500 and (ri + pi + r) % 2:
                                 continue
                             yield 'C16.accuracy.relative_distance', dict(base, rel=rel)
                         if fam != 'int' and (big or d < 500 or r == 1):
@@ -874,7 +878,7 @@ def cases(tier, seed):
                                 yield 'C16.truncate.stab_large', dict(base, e=1e-3, inflate='decay')
     # (b) pivot next to the ends / at the thirds for the old profiles
     for d in (2, 3, 10, 60) + ((500,) if big else ()):
-        for fam in (fams if big else ('pos', 'gauss', 'rank1s')):
+        for fam in (fams if big and d < 500 else ('pos', 'gauss', 'rank1s')):
             for r in (1, 2, 3):
                 if fam == 'rank1s' and r > 1:
                     continue
